@@ -7,4 +7,4 @@ CONSTANTS
 SPECIFICATION Spec
 CHECK_DEADLOCK FALSE
 INVARIANTS TypeOK AtMostOnce OnlySubmittedRun LockNotHeldWhileRunning LockConsistent NeverPoisoned NoLossNoDup NoPrematureExit SingleShutdown HandlesOwn
-PROPERTIES EventuallyEachOnce CallerNeverBlocks AllWorkersExit PanicIsolated LiveAll
+PROPERTIES EventuallyEachOnce PanicIsolated LiveAll
